@@ -130,13 +130,16 @@ class Cl:
 
 
 class Gen:
-    def __init__(self, rng, exe, check_ip=None, netbits=None, real_z=False, bind=None, hostile=0.0, matrix=False):
+    def __init__(self, rng, exe, check_ip=None, netbits=None, real_z=False, bind=None, hostile=0.0, matrix=False, wild=None, other=1.0):
         self.hostile = hostile
         self.matrix = matrix        # open the run with scenario_bytes_matrix (byte-level correspondence: every encoder path)
         self.rng = rng
         self.h = Harness(exe, real_z)
         self.td = rng.choice([b"t.example.com", b"a.bc", b"tun.x-y.org", b"T.Example.COM"])
         self.srvtd = self.td if rng.random() < 0.8 else b"*." + self.td.split(b".", 1)[1]
+        if wild is not None:
+            self.srvtd = (b"*." + self.td.split(b".", 1)[1]) if wild else self.td
+        self.other_boost = other          # > 1: more non-tunnel traffic (NS / A / outside queries)
         self.pw = bytes(rng.randrange(1, 256) for _ in range(rng.choice([0, 1, 6, 31, 32, 33, 40])))
         self.check_ip = rng.random() < 0.7 if check_ip is None else check_ip
         self.netbits = rng.choice([24, 27, 28, 29, 30, 16, 8]) if netbits is None else netbits
@@ -464,7 +467,7 @@ class Gen:
         if self.rng.random() < 0.25:
             src = addr((0xfd00 << 112) | self.rng.randrange(1, 9), 5353, 6)        # an asker that reaches us over IPv6
         base = self.srvtd[2:] if self.srvtd.startswith(b"*.") else self.srvtd
-        sub = (b"x9." + base) if self.srvtd.startswith(b"*.") else base
+        sub = (self.rng.choice([b"x9.", b"q.", b"label-17.", b"tun."]) + base) if self.srvtd.startswith(b"*.") else base
         if r < 0.2:
             self.h.send("q %s %d %d %s" % (src, self.dnsid(), 2, vlib.hx(self.rng.choice([sub, b"abc." + sub]))), {"kind": "ns"})
         elif r < 0.4:
@@ -765,7 +768,7 @@ class Gen:
                 self.act_spoof(rng.choice(live))
             elif r < 0.87 and live:
                 self.act_raw(rng.choice(live))
-            elif r < 0.90:
+            elif r < 0.90 or (self.other_boost > 1 and rng.random() < 0.3):
                 self.act_other()
             elif r < 0.95:
                 self.h.send("tick", {"kind": "tick"})
